@@ -364,7 +364,7 @@ Do(o) == LET r == Apply(st, o) IN
 Next == /\ Len(hist) < Bound
         /\ IF Scripted THEN Do(Script[Len(hist) + 1]) ELSE \E o \in Alphabet(cfg0) : Do(o)
 
-Emit == Len(hist) = Bound => PrintT(<<"ST", ToJson([cfg |-> cfg0, files |-> files0, aux |-> aux, api |-> (IF Family \in {"api", "apiq"} THEN [accept |-> APIAccepted(cfg0), violations |-> GetterViolations(cfg0), methods |-> GetterMethods(cfg0), names |-> Names(cfg0)] ELSE <<>>), hist |-> hist, heap |-> st.heap, cnt |-> st.cnt])>>)
+Emit == Len(hist) = Bound => PrintT(<<"ST", ToJson([cfg |-> cfg0, files |-> files0, aux |-> aux, eff |-> [s \in SvcNames(cfg0) |-> EffScope(cfg0, s)], api |-> (IF Family \in {"api", "apiq"} THEN [accept |-> APIAccepted(cfg0), violations |-> GetterViolations(cfg0), methods |-> GetterMethods(cfg0), names |-> Names(cfg0)] ELSE <<>>), hist |-> hist, heap |-> st.heap, cnt |-> st.cnt])>>)
 
 -----------------------------------------------------------------------------
 (* R1: design-level invariants of the run-time semantics.                                *)
